@@ -9,7 +9,7 @@ warnings.filterwarnings('ignore', category=SyntaxWarning)
 
 ID = 'C04'
 LEVEL = 'proof'
-PROPS = ['Props/C04.v']
+PROPS = ['Props/C04.v', 'Findings/C04.v']
 GEN = [('Gen/Priority.v', priority.generate)]
 TRUSTED = [
     'py2coq scanner tools/py2coq/priority.py: the @priority(k) table, the `>=` rule of the decorator and the layout of every post<Node> method of '
@@ -37,7 +37,7 @@ RULE = ('exhaustive: every allowed (parent kind, position class, child kind) tri
         'non-trivial = the tree contains a triple at which the grammar requires parentheses, or an f-string with spec/brace/conversion; distinct = distinct canonical trees')
 
 HEADER = ('From Coq Require Import ZArith List Bool Arith.\nImport ListNotations.\n'
-          'Require Import PonyV.Model.C04Expr PonyV.Model.C04Parse PonyV.Model.C04FStr PonyV.Gen.Priority.\n'
+          'Require Import PonyV.Model.C04Expr PonyV.Model.C04Parse PonyV.Model.C04FStr PonyV.Model.C04Ext PonyV.Gen.Priority.\n'
           'Open Scope Z_scope.\n'
           'Definition bools_eqb := list_eqb Bool.eqb.\nDefinition nats_eqb := list_eqb Nat.eqb.\n'
           'Definition fpart_eqb (a b : fpart) : bool := match a, b with FLit x, FLit y => str_eqb x y '
@@ -51,6 +51,13 @@ HEADER = ('From Coq Require Import ZArith List Bool Arith.\nImport ListNotations
           '  + match fullt with Some r => bit (str_eqb (render true (print full_style t)) r) 8 | None => 0 end\n'
           '  + match wfx with Some w => bit (Bool.eqb (wf t) w) 16 | None => 0 end\n'
           '  + (if selfparse then bit (opt_eqb expr_eqb (parse_auto (print ref_style t)) (Some t)) 32 else 0))%nat.\n'
+          'Definition path_eqb := list_eqb Nat.eqb.\nDefinition psub (a b : list path) := forallb (fun p => existsb (path_eqb p) b) a.\n'
+          'Definition pset_eqb (a b : list path) := psub a b && psub b a.\n'
+          'Definition srcs_eqb (m : list (option str)) (r : list str) : bool := forallb (fun o => match o with Some s => existsb (str_eqb s) r | None => false end) m\n'
+          '  && forallb (fun s => existsb (fun o => match o with Some s1 => str_eqb s s1 | None => false end) m) r.\n'
+          '(* the marking of one query body: external paths and extractor texts of the model vs the real PreTranslator / create_extractors *)\n'
+          'Definition ecase (fc : list str -> callclass) (ctx : list str) (t : expr) (paths : list path) (srcs : list str) : nat :=\n'
+          '  (bit (pset_eqb (externals fc ctx t) paths) 1 + bit (srcs_eqb (ext_srcs pony_style pony_escape_braces fc ctx t) srcs) 2)%nat.\n'
           'Definition nonzero (l : list nat) : list (nat * nat) := filter (fun p => negb (Nat.eqb (snd p) 0)) (combine (seq 0 (length l)) l).\n')
 
 LEXICAL = re.compile(r'\d\.[A-Za-z_]')
@@ -440,14 +447,62 @@ def correspondence(ctx):
         dist['fstring_char_level'] += len(parts) + 1; ncases += len(parts) + 1
         nontrivial.add(json.dumps(v))
 
+    # PreTranslator / create_extractors: external set (node for node) and extractor texts, model vs implementation
+    import c04_ext as X
+    xg = X.ExtGen(ctx.rng, negconst=True, braces=True, specs=True)
+    fc, cctx = X.coq_fclass(), '[' + ';'.join(G.cstr(v) for v in X.QUERY_VARS) + ']'
+    dist.update({'marking_trees': 0, 'marking_externals': 0, 'marking_trees_with_query_vars': 0})
+    xtrees = [G.from_ast(ast.parse(x, mode='eval').body) for x in MARKING_CORPUS]
+    for _ in range(ctx.scale(350, 3500)):
+        xtrees.append(xg.expr(ctx.rng.choice([1, 2, 3, 3, 4])))
+    for t in xtrees:
+        if not G.wf(t, parse_model=False): continue
+        try:
+            paths = X.real_externals(t)
+            try:
+                srcs, _g = X.real_extractor_srcs(t)
+            except SyntaxError as e:
+                if not re.search(r'<pony (\*|[^>]*:)', str(e)): raise
+                srcs = None          # a starred item / slice left in the set (known finding): its text does not compile; the set itself is still compared
+                dist['marking_starred_external'] = dist.get('marking_starred_external', 0) + 1
+        except Exception as e:
+            disagreements.append({'what': 'real PreTranslator / create_extractors raised on a generated query body', 'input': t, 'impl': '%s: %s' % (type(e).__name__, e)})
+            continue
+        if srcs is not None and any(a != b and a == b[:len(a)] for a in paths for b in paths):
+            # an external inside another external (only through the list / starred defect): ast2src caches node.src, and the text of the inner one
+            # carries the parentheses its parent gave it iff the outer one was printed first - the set's iteration order decides. Compare the set only.
+            srcs = None; dist['marking_nested_externals'] = dist.get('marking_nested_externals', 0) + 1
+        if any(p and p[0] == '?' for p in paths):
+            disagreements.append({'what': 'an external node of the real PreTranslator has no counterpart in the tree model', 'input': t, 'impl': sorted(map(str, paths))})
+            continue
+        dist['marking_trees'] += 1; dist['marking_externals'] += len(paths); ncases += 2 if srcs is not None else 1
+        if G.has_kind(t, {'Name'}) and any(x in X.QUERY_VARS for x in _names(t)):
+            dist['marking_trees_with_query_vars'] += 1; nontrivial.add('m' + G.tree_json(t))
+        if srcs is None:
+            exprs.append('bit (pset_eqb (externals %s %s %s) [%s]) 1' % (fc, cctx, G.coq_expr(t), ';'.join(X.coq_path(p) for p in sorted(paths))))
+        else:
+            exprs.append('ecase %s %s %s [%s] [%s]' % (fc, cctx, G.coq_expr(t), ';'.join(X.coq_path(p) for p in sorted(paths)), ';'.join(G.cstr(x) for x in sorted(srcs))))
+        meta.append(('marking', t, {'paths': sorted(paths), 'srcs': None if srcs is None else sorted(srcs)}))
     for i, code in run_codes(ctx, exprs)[:20]:
         kind, inp, impl = meta[i]
         why = '; '.join(w for c, w in CODES.items() if code & c) if kind == 'tree' else 'code %d' % code
+        if kind == 'marking': why = '; '.join(w for c, w in ((1, 'set of external nodes differs'), (2, 'extractor source texts differ')) if code & c)
         disagreements.append({'what': 'model and implementation differ (%s: %s)' % (kind, why), 'input': inp, 'impl': impl, 'coq_case': exprs[i][:1500]})
     if first_tree_case is not None: samples.append({'coq_case': exprs[first_tree_case][:700]})
     return Corr(cases=ncases, nontrivial=len(nontrivial), disagreements=disagreements, samples=samples, distribution=dist,
                 note='per tree one Coq term `tcase` evaluated by vm_compute (text equality with ast2src, model parser vs ast.parse on the real output, reference / all-parentheses '
                      'text vs mirror, wf vs mirror, model reparse of the reference text); cases counts the individual ties; CPython reparse checks of the reference texts run on the Python side')
+
+
+def _names(t):
+    out = {t[1]} if t[0] == 'Name' else set()
+    for c in t[2]: out |= _names(c)
+    return out
+
+
+MARKING_CORPUS = ['p.x in [a, *b]', 'p.x == a + 1', 'p.x == f([p.y])', 'p.x in [a, p.y]', 'p.x == f(*[a, b])', 'a < p.x < b + c', 'p.x == (a if b else c) + q.y', '(lambda u: u + a)(p.x)',
+                  'count(p.x) > a + b', 'p.d == date(2020, a, 1)', 'p.d == date(2020, 1, 1)', "p.s == f'{a}{p.x}'", "p.s == f'{a:>3}-{b!r}'", "p.s == f'{p.x:>3}'", 'p.x == a.b.c(d).e',
+                  'p.x == x[a:b]', 'p.x == x[:]', 'p.x == f(k=a, j=p.y)', 'raw_sql(a) and p.x', 'getattr(p, a) == b', 'p.x == (a, (b, c))[0]', 'p.x == -a ** b', 'not p.x and not a']
 
 
 def _has_brace_lit(t):
@@ -600,6 +655,26 @@ def search(ctx, deep):
         f = generator_case(text, names)
         if f is not None: record([f])
         else: nontriv.add('gen' + text)
+    # (e) the marking on the implementation: no external of the real PreTranslator may mention a query variable
+    import c04_ext as X
+    xg = X.ExtGen(ctx.rng, negconst=True, braces=True, specs=True)
+    dist.update({'marking_route': 0, 'marking_failing': 0, 'extract_vars_route': 0, 'extract_vars_skipped': 0})
+    mtrees = [G.from_ast(ast.parse(x, mode='eval').body) for x in MARKING_CORPUS] + [xg.expr(ctx.rng.choice([1, 2, 3, 3, 4])) for _ in range(3000 if deep else 300)]
+    for t in mtrees:
+        if not G.wf(t, parse_model=False): continue
+        evals += 1; dist['marking_route'] += 1
+        f = marking_failure(t)
+        if f is None: nontriv.add('mk' + G.tree_json(t))
+        else: dist['marking_failing'] += 1; record([f])
+    # (f) extract_vars: keys (filter_num, src, code_key), values with closure cells laid over the locals
+    ig2 = G.IntGen(ctx.rng)
+    for i in range(600 if deep else 80):
+        t = ('Compare', ['Eq'], [('Add', None, [('Attribute', 'x', [('Name', 'p', [])]), ig2.expr(2)]), ig2.expr(2)])
+        evals += 1; dist['extract_vars_route'] += 1
+        f = extract_failure(t, ctx.rng.choice([0, 1, 5]), ctx.rng.sample(['a', 'b', 'c', 'd', 'e'], ctx.rng.choice([0, 1, 2])), i)
+        if f == 'skip': dist['extract_vars_skipped'] += 1
+        elif f is None: nontriv.add('xv' + G.tree_json(t))
+        else: record([f])
     return Search(evaluations=evals, failures=failures, nontrivial=len(nontriv), distribution=dist, exhaustive=False,
                   samples=[{'query': "select(p for p in P if p.x == ((a + b).bit_length()))", 'scope': E.INT_SCOPE}])
 
@@ -611,6 +686,37 @@ def corpus_trees():
         try: out.append(G.tree_from_json(json.load(open(f))['tree']))
         except Exception: pass
     return out
+
+
+def marking_failure(t):
+    import c04_ext as X
+    res = X.marking_check(t)
+    if res is None: return None
+    text = ast.unparse(G.to_ast(t))
+    if res['kind'] == 'external-mentions-query-variable':
+        key = 'list-or-starred-item-marked-external' if X.has_dishonest_display(t) else 'unexplained:marking:%s' % signature(t)
+        return Failure(key, 'marking: in `(p for p in P for q in Q if %s)` the subexpression `%s` is marked external (evaluated in the caller\'s scope) although it '
+                       'mentions the query variable %s' % (text, res['src'], ', '.join(res['names'])), {'marking_tree': t})
+    if res['kind'] == 'external-is-not-an-expression':
+        key = 'non-expression-item-extracted-as-parameter' if res['node'] in ('Starred', 'Slice') else 'unexplained:marking-item:%s' % res['node']
+        return Failure(key, 'marking: in `(p for p in P for q in Q if %s)` the %s `%s` is left in the set of externals; it is not an expression, '
+                       'create_extractors fails to compile it (SyntaxError)' % (text, res['node'], res['src']), {'marking_tree': t})
+    return Failure('unexplained:pretranslator-raises:%s' % res['exc'], 'marking: PreTranslator raises %s on `%s`: %s' % (res['exc'], text, res['msg']), {'marking_tree': t})
+
+
+def extract_failure(t, filter_num, cells, i=0):
+    import c04_ext as X, c04_eval as E
+    scope = dict(E.INT_SCOPE)
+    try:
+        res, srcs = X.extract_vars_check(t, scope, cells, filter_num, ('c04-extract', i))
+    except SyntaxError:
+        return 'skip'
+    if res is None: return None
+    if res['kind'] == 'extract_vars-raises':
+        # an external whose evaluation raises in Python too is reported by Pony as ExprEvalError: that is Python's behaviour
+        if res['exc'] in ('ExprEvalError', 'TypeError', 'NotImplementedError'): return 'skip'
+    return Failure('unexplained:extract_vars:%s' % res['kind'], 'extract_vars: `%s` (filter_num %d, cells %s): %s' % (ast.unparse(G.to_ast(t)), filter_num, cells, json.dumps(res)[:200]),
+                   {'extract_tree': t, 'filter_num': filter_num, 'cells': cells})
 
 
 def _short(res):
@@ -670,6 +776,11 @@ def replay(ctx, data):
     import c04_eval as E
     if 'generator_text' in data:
         return generator_case(data['generator_text'])
+    if 'marking_tree' in data:
+        return marking_failure(G.tree_from_json(data['marking_tree']))
+    if 'extract_tree' in data:
+        f = extract_failure(G.tree_from_json(data['extract_tree']), data.get('filter_num', 0), data.get('cells', []))
+        return None if f == 'skip' else f
     t = G.tree_from_json(data['tree'])
     route = data.get('route', 'ast2src')
     if route == 'ast2src':
